@@ -205,7 +205,7 @@ def replay_dof_reuse():
     md.initialize_velocity = stop
     out = []
     for natoms, rc in ((5.0, None), (3.0, ("angular", 1))):
-        mol = _t.SimpleNamespace(coordinates=torch.zeros(1, 5, 3), velocities=None, num_atoms=torch.tensor([natoms]), verbose=True)
+        mol = _t.SimpleNamespace(coordinates=torch.zeros(1, 5, 3), velocities=None, num_atoms=torch.tensor([natoms]), molsize=5, nmol=1, verbose=True)
         try:
             md.initialize(mol, remove_com=rc)
         except _Stop:
